@@ -2,6 +2,7 @@
 #[path = "gen.rs"]
 mod tgen;
 mod c01;
+mod doc;
 mod c04;
 mod c02;
 
